@@ -462,7 +462,10 @@ fn outline(r: &mut Rng, line: &mut usize, name_i: usize, unknown: bool) -> (gher
         if unknown && r.chance(1, 3) { "<nope>".to_owned() } else { format!("<{}>", r.pick(&cols)) }
     };
     let texty = |r: &mut Rng, base: &str| -> String {
-        match r.below(9) {
+        match r.below(11) {
+            // a name may contain no whitespace, non-ASCII whitespace included: not a placeholder
+            9 => format!("{base} <first\u{a0}name> {} <x\u{3000}y>", ph(r)),
+            10 => format!("<{}\u{2003}{}>{}", r.pick(&cols), r.pick(&cols), ph(r)),
             // `<>` is no placeholder (empty name), whatever follows it
             6 => format!("{base}<>{}", ph(r)),
             7 => format!("<>>{} <> {base}", ph(r)),
